@@ -196,6 +196,9 @@ WIN_FIXED = [
     ([("mkdir", "W/d"), ("create", "W/d/a")],
      [[("rename", "W/d", "W/dd"), ("rename", "W/dd", "W/d"), ("rename", "W/d", "W/dd")], [("create", "W/dd/b")]]),
     ([("mkdir", "W/d")], [[("rmdir", "W/d"), ("mkdir", "W/d"), ("rmdir", "W/d"), ("mkdir", "W/d")], [("create", "W/d/a")]]),
+    # growth bursts (the regime of C20.win_burst_grow_partial): mkdir -p + populate in one read, inside old and new directories
+    ([("mkdir", "W/d")], [[("mkdir", "W/a"), ("mkdir", "W/a/b"), ("create", "W/a/f"), ("mkdir", "W/a/b/d"), ("create", "W/d/a"),
+                           ("mkdir", "W/d/dd"), ("create", "W/d/dd/b")], [("create", "W/a/b/d/a")]]),
 ]
 
 
